@@ -1,5 +1,6 @@
 import SemantivaModel.Properties.C01
 import SemantivaModel.Model.Inspect
+import SemantivaModel.Model.Origin
 /-!
 # C02 — static inspection is sound: accepted configurations do not fail on flow at run time
 
@@ -805,5 +806,606 @@ example : (analyse [srcDef, probeTo "a", op1]).toOption = some [] := by decide
 example : (analyse [srcDef, del "a", op1]).toOption = none := by decide
 /-- a type change is seen across a context-only node -/
 example : (analyse [srcDef, del "c", { op1 with inT := "TColl" }]).toOption = none := by decide
+
+
+/-!
+## Part 2 — the reported parameter origins are true (and where they are not)
+
+The real inspection reports, for every parameter of every node, where its value will come from.
+`origin_config_true`, `origin_node_true`, `origin_initial_true`: for pipelines of any length, a
+parameter reported as coming from the node configuration / from node `j` / from the initial context
+receives at run time exactly the configured value / the value key `p` had right after node `j` ran /
+the value the caller supplied.  `origin_default_true_partial`: a parameter reported as defaulted
+receives its default **provided the caller's context does not hold that name**; the full statement
+("with exactly the required keys supplied") is false of the one-pass analysis, and
+`origin_default_untrue_witness` exhibits the failing pipeline (the recorded finding of C02).
+-/
+
+/-! ## The origin map after one node -/
+
+theorem lookup_filter_key (l : List (String × Nat)) (q : String → Bool) (k : String) :
+    (l.filter (fun kv => q kv.1)).lookup k = if q k then l.lookup k else none := by
+  induction l with
+  | nil => simp [List.lookup]
+  | cons kv rest ih =>
+    obtain ⟨a, b⟩ := kv
+    by_cases hq : q a = true
+    · simp only [List.filter_cons, hq, if_true, List.lookup]
+      by_cases e : k = a
+      · subst e; simp [hq]
+      · have : (k == a) = false := by simpa using e
+        simp only [this]; exact ih
+    · have hq' : q a = false := by simpa using hq
+      simp only [List.filter_cons, hq', Bool.false_eq_true, if_false, List.lookup]
+      by_cases e : k = a
+      · subst e; simp only [hq', Bool.false_eq_true, if_false] at ih ⊢; exact ih
+      · have : (k == a) = false := by simpa using e
+        simp only [this]; exact ih
+
+theorem lookup_map_append (ks : List String) (i : Nat) (om : OMap) (k : String) :
+    ((ks.map (fun x => (x, i))) ++ om).lookup k = if ks.contains k then some i else om.lookup k := by
+  induction ks with
+  | nil => simp
+  | cons a rest ih =>
+    simp only [List.map_cons, List.cons_append, List.lookup, List.contains_cons]
+    by_cases e : k = a
+    · subst e; simp
+    · have : (k == a) = false := by simpa using e
+      simp only [this, Bool.false_or]; exact ih
+
+theorem stepO_lookup (n : Node) (i : Nat) (st : OState) (k : String) :
+    (stepO n i st).om.lookup k =
+      if (suppressedOf n).contains k then none
+      else if (createdOf n).contains k then some i else st.om.lookup k := by
+  simp only [stepO]
+  rw [lookup_filter_key _ (fun x => !(suppressedOf n).contains x), lookup_map_append]
+  cases (suppressedOf n).contains k <;> simp
+
+theorem stepO_gone (n : Node) (i : Nat) (st : OState) (k : String) :
+    (stepO n i st).gone.contains k =
+      ((st.gone.contains k && !(createdOf n).contains k) || (suppressedOf n).contains k) := by
+  simp only [stepO]
+  rw [Bool.eq_iff_iff]
+  simp only [List.mem_append, List.mem_filter, Bool.or_eq_true, Bool.and_eq_true,
+    Bool.not_eq_true', List.contains_eq_mem, decide_eq_true_eq, decide_eq_false_iff_not]
+
+/-! ## What one node does to the *values* of keys it neither creates nor suppresses -/
+
+theorem step_frame_get (tbl : ResolveTable) (n : Node) (s s' : Data × Ctx) (hc : construct n = none)
+    (h : step tbl n s = .ok s') (k : String)
+    (hcr : (createdOf n).contains k = false) (hsu : (suppressedOf n).contains k = false) :
+    s'.2.get k = s.2.get k := by
+  obtain ⟨d, c⟩ := s
+  obtain ⟨d', c'⟩ := s'
+  simp only
+  cases hkind : n.kind with
+  | rename src dst =>
+    have hr := rename_touches_only_declared tbl n src dst d d' c c' hkind h
+    simp only [createdOf, suppressedOf, hkind, List.contains_cons, List.contains_nil, Bool.or_false, beq_eq_false_iff_ne, ne_eq] at hcr hsu
+    exact hr.2 k hsu hcr
+  | delete key =>
+    have hr := delete_touches_only_declared tbl n key d d' c c' hkind h
+    simp only [suppressedOf, hkind, List.contains_cons, List.contains_nil, Bool.or_false, beq_eq_false_iff_ne, ne_eq] at hsu
+    exact hr.2.1 k hsu
+  | template parts out =>
+    have hr := template_touches_only_declared tbl n parts out d d' c c' hkind h
+    simp only [createdOf, hkind, List.contains_cons, List.contains_nil, Bool.or_false, beq_eq_false_iff_ne, ne_eq] at hcr
+    exact hr.2.1 k hcr
+  | dataSource =>
+    have hp := source_produces tbl n d d' c c' hkind h
+    rw [hp.2.1]
+  | dataSink =>
+    have hp := sink_passes_through tbl n d d' c c' (Or.inl hkind) h
+    rw [hp.2]
+  | payloadSink =>
+    have hp := sink_passes_through tbl n d d' c c' (Or.inr hkind) h
+    rw [hp.2]
+  | operation =>
+    have hfr := operation_frames_context tbl n d d' c c' hkind h
+    simp only [createdOf, hkind] at hcr
+    exact hfr.2 k hcr
+  | probe =>
+    cases hck : n.contextKey with
+    | none => simp [construct, Kind.isCtxProc, hkind, hck] at hc
+    | some ck =>
+      simp only [createdOf, hkind, hck, Option.toList, List.contains_cons, List.contains_nil, Bool.or_false,
+        beq_eq_false_iff_ne, ne_eq] at hcr
+      simp only [step, hkind] at h
+      split at h
+      · cases h
+      · split at h
+        · cases h
+        · cases hsl : n.sliced with
+          | true =>
+            simp only [hsl, if_true, hck, Option.getD_some] at h
+            cases d with
+            | coll t xs =>
+              simp only at h
+              split at h
+              · cases h
+              · injection h with h; injection h with _ hc2; subst hc2
+                exact Ctx.get_set_ne _ _ _ _ hcr
+            | nodata => simp at h
+            | item t v => simp at h
+          | false =>
+            simp only [hsl, Bool.false_eq_true, if_false, hck, Option.getD_some] at h
+            split at h
+            · cases h
+            · injection h with h; injection h with _ hc2; subst hc2
+              exact Ctx.get_set_ne _ _ _ _ hcr
+  | payloadSource key ktag =>
+    simp only [createdOf, hkind, List.contains_cons, List.contains_nil, Bool.or_false, beq_eq_false_iff_ne, ne_eq] at hcr
+    simp only [step, hkind] at h
+    split at h
+    · cases h
+    · split at h
+      · cases h
+      · split at h
+        · cases h
+        · split at h
+          · cases h
+          · injection h with h; injection h with _ hc2; subst hc2
+            exact Ctx.get_set_ne _ _ _ _ hcr
+
+/-- A key a node is declared to suppress is absent afterwards. -/
+theorem step_suppressed_absent (tbl : ResolveTable) (n : Node) (s s' : Data × Ctx)
+    (h : step tbl n s = .ok s') (k : String) (hsu : (suppressedOf n).contains k = true) :
+    s'.2.has k = false := by
+  obtain ⟨d, c⟩ := s
+  obtain ⟨d', c'⟩ := s'
+  simp only
+  cases hkind : n.kind with
+  | rename src dst =>
+    simp only [suppressedOf, hkind, List.contains_cons, List.contains_nil, Bool.or_false, beq_iff_eq] at hsu
+    subst hsu
+    simp only [step, hkind] at h
+    split at h
+    · cases h
+    · split at h
+      · injection h with h; injection h with _ hc2; subst hc2
+        rw [has_erase]; simp
+      · cases h
+  | delete key =>
+    simp only [suppressedOf, hkind, List.contains_cons, List.contains_nil, Bool.or_false, beq_iff_eq] at hsu
+    subst hsu
+    have hr := delete_touches_only_declared tbl n k d d' c c' hkind h
+    rw [has_iff_get, hr.2.2]; rfl
+  | template parts out => simp [suppressedOf, hkind] at hsu
+  | dataSource => simp [suppressedOf, hkind] at hsu
+  | dataSink => simp [suppressedOf, hkind] at hsu
+  | payloadSink => simp [suppressedOf, hkind] at hsu
+  | operation => simp [suppressedOf, hkind] at hsu
+  | probe => simp [suppressedOf, hkind] at hsu
+  | payloadSource key ktag => simp [suppressedOf, hkind] at hsu
+
+/-! ## The invariant relating the origin map to the recorded history -/
+
+/-- `hist` = the contexts after nodes 0 … i-1 (in order), `s` = the state node i starts from. -/
+structure OInv (c₀ : Ctx) (hist : List Ctx) (st : OState) (s : Data × Ctx) : Prop where
+  fromNode : ∀ k j, st.om.lookup k = some j →
+    ∃ cj, hist[j]? = some cj ∧ s.2.get k = cj.get k ∧ s.2.has k = true
+  untouched : ∀ k, st.om.lookup k = none → st.gone.contains k = false → s.2.get k = c₀.get k
+  absent : ∀ k, st.om.lookup k = none → st.gone.contains k = true → s.2.has k = false
+
+theorem oinv_init (d₀ : Data) (c₀ : Ctx) : OInv c₀ [] OState.init (d₀, c₀) :=
+  ⟨by intro k j h; simp [OState.init] at h, by intro k _ _; rfl, by intro k _ h; simp [OState.init] at h⟩
+
+theorem oinv_step (tbl : ResolveTable) (c₀ : Ctx) (hist : List Ctx) (st : OState) (n : Node) (s s' : Data × Ctx)
+    (hwf : nodeWF n = true) (hc : construct n = none) (h : step tbl n s = .ok s') (hinv : OInv c₀ hist st s) :
+    OInv c₀ (hist ++ [s'.2]) (stepO n hist.length st) s' := by
+  have heff := step_effect tbl n s s' hwf hc h
+  refine ⟨?_, ?_, ?_⟩
+  · intro k j hj
+    rw [stepO_lookup] at hj
+    cases hsu : (suppressedOf n).contains k with
+    | true => rw [hsu] at hj; simp at hj
+    | false =>
+      rw [hsu] at hj
+      simp only [Bool.false_eq_true, if_false] at hj
+      cases hcr : (createdOf n).contains k with
+      | true =>
+        rw [hcr] at hj
+        simp only [if_true] at hj
+        injection hj with hj; subst hj
+        exact ⟨s'.2, by simp, rfl, heff.created k hcr hsu⟩
+      | false =>
+        rw [hcr] at hj
+        simp only [Bool.false_eq_true, if_false] at hj
+        obtain ⟨cj, h1, h2, h3⟩ := hinv.fromNode k j hj
+        have hlt : j < hist.length := by
+          rcases Nat.lt_or_ge j hist.length with hlt | hge
+          · exact hlt
+          · rw [List.getElem?_eq_none hge] at h1; cases h1
+        refine ⟨cj, ?_, ?_, heff.kept k h3 hsu⟩
+        · rw [List.getElem?_append_left hlt]; exact h1
+        · rw [step_frame_get tbl n s s' hc h k hcr hsu]; exact h2
+  · intro k hk hg
+    rw [stepO_lookup] at hk
+    rw [stepO_gone] at hg
+    cases hsu : (suppressedOf n).contains k with
+    | true => rw [hsu] at hg; simp at hg
+    | false =>
+      rw [hsu] at hk hg
+      simp only [Bool.false_eq_true, if_false, Bool.or_false] at hk hg
+      cases hcr : (createdOf n).contains k with
+      | true => rw [hcr] at hk; simp at hk
+      | false =>
+        rw [hcr] at hk hg
+        simp only [Bool.false_eq_true, if_false, Bool.not_false, Bool.and_true] at hk hg
+        rw [step_frame_get tbl n s s' hc h k hcr hsu]
+        exact hinv.untouched k hk hg
+  · intro k hk hg
+    rw [stepO_lookup] at hk
+    rw [stepO_gone] at hg
+    cases hsu : (suppressedOf n).contains k with
+    | true => exact step_suppressed_absent tbl n s s' h k hsu
+    | false =>
+      rw [hsu] at hk hg
+      simp only [Bool.false_eq_true, if_false, Bool.or_false] at hk hg
+      cases hcr : (createdOf n).contains k with
+      | true => rw [hcr] at hk; simp at hk
+      | false =>
+        rw [hcr] at hk hg
+        simp only [Bool.false_eq_true, if_false, Bool.not_false, Bool.and_true] at hk hg
+        have := hinv.absent k hk hg
+        rw [has_iff_get, step_frame_get tbl n s s' hc h k hcr hsu, ← has_iff_get]
+        exact this
+
+/-- The invariant holds along every execution (pipelines of any length). -/
+theorem oinv_execHist (tbl : ResolveTable) (c₀ : Ctx) :
+    ∀ (ns : List Node) (hist : List Ctx) (st : OState) (s sf : Data × Ctx) (hs : List Ctx),
+      (∀ n ∈ ns, nodeWF n = true ∧ construct n = none) →
+      OInv c₀ hist st s → execHist tbl ns s = .ok (sf, hs) →
+      OInv c₀ (hist ++ hs) (foldO ns hist.length st) sf
+  | [], hist, st, s, sf, hs, _, hinv, h => by
+    simp only [execHist] at h
+    injection h with h; injection h with h1 h2; subst h1; subst h2
+    simpa [foldO] using hinv
+  | n :: ns, hist, st, s, sf, hs, hwf, hinv, h => by
+    simp only [execHist] at h
+    cases hstep : step tbl n s with
+    | error e => rw [hstep] at h; cases h
+    | ok s' =>
+      rw [hstep] at h
+      simp only at h
+      cases hrest : execHist tbl ns s' with
+      | error e => rw [hrest] at h; cases h
+      | ok r =>
+        obtain ⟨sf', h'⟩ := r
+        rw [hrest] at h
+        injection h with h; injection h with h1 h2; subst h1; subst h2
+        have hn := hwf n (by simp)
+        have h1 := oinv_step tbl c₀ hist st n s s' hn.1 hn.2 hstep hinv
+        have h2 := oinv_execHist tbl c₀ ns (hist ++ [s'.2]) (stepO n hist.length st) s' sf' h'
+          (fun m hm => hwf m (List.mem_cons_of_mem _ hm)) h1 hrest
+        simpa [foldO, List.append_assoc] using h2
+
+/-! ## `execHist` is the execution of C01, and its history is made of prefix runs -/
+
+theorem execHist_fst (tbl : ResolveTable) :
+    ∀ (ns : List Node) (i : Nat) (s sf : Data × Ctx) (hs : List Ctx),
+      execHist tbl ns s = .ok (sf, hs) → execFrom tbl ns i s = .ok sf ∧ hs.length = ns.length
+  | [], i, s, sf, hs, h => by
+    simp only [execHist] at h
+    injection h with h; injection h with h1 h2; subst h1; subst h2
+    exact ⟨rfl, rfl⟩
+  | n :: ns, i, s, sf, hs, h => by
+    simp only [execHist] at h
+    cases hstep : step tbl n s with
+    | error e => rw [hstep] at h; cases h
+    | ok s' =>
+      rw [hstep] at h
+      simp only at h
+      cases hrest : execHist tbl ns s' with
+      | error e => rw [hrest] at h; cases h
+      | ok r =>
+        obtain ⟨sf', h'⟩ := r
+        rw [hrest] at h
+        injection h with h; injection h with h1 h2; subst h1; subst h2
+        have := execHist_fst tbl ns (i + 1) s' sf' h' hrest
+        exact ⟨by simp [execFrom, hstep, this.1], by simp [this.2]⟩
+
+/-- Entry `j` of the history is the context the first `j+1` nodes leave when run on their own. -/
+theorem execHist_prefix (tbl : ResolveTable) :
+    ∀ (ns : List Node) (s sf : Data × Ctx) (hs : List Ctx) (j : Nat) (cj : Ctx),
+      execHist tbl ns s = .ok (sf, hs) → hs[j]? = some cj →
+      ∃ dj, execFrom tbl (ns.take (j + 1)) 0 s = .ok (dj, cj)
+  | [], s, sf, hs, j, cj, h, hj => by
+    simp only [execHist] at h
+    injection h with h; injection h with h1 h2; subst h2
+    simp at hj
+  | n :: ns, s, sf, hs, j, cj, h, hj => by
+    simp only [execHist] at h
+    cases hstep : step tbl n s with
+    | error e => rw [hstep] at h; cases h
+    | ok s' =>
+      rw [hstep] at h
+      simp only at h
+      cases hrest : execHist tbl ns s' with
+      | error e => rw [hrest] at h; cases h
+      | ok r =>
+        obtain ⟨sf', h'⟩ := r
+        rw [hrest] at h
+        injection h with h; injection h with h1 h2; subst h1; subst h2
+        cases j with
+        | zero =>
+          simp only [List.getElem?_cons_zero, Option.some.injEq] at hj
+          subst hj
+          exact ⟨s'.1, by simp [execFrom, hstep]⟩
+        | succ j =>
+          simp only [List.getElem?_cons_succ] at hj
+          obtain ⟨dj, hdj⟩ := execHist_prefix tbl ns s' sf' h' j cj hrest hj
+          refine ⟨dj, ?_⟩
+          simp only [List.take_succ_cons, execFrom, hstep]
+          have := execFrom_shift tbl (ns.take (j + 1)) 0 1 s'
+          rw [hdj] at this
+          simpa using this
+where
+  execFrom_shift (tbl : ResolveTable) : ∀ (ns : List Node) (i k : Nat) (s : Data × Ctx),
+      (match execFrom tbl ns i s with | .ok r => execFrom tbl ns (i + k) s = .ok r | .error _ => True)
+    | [], i, k, s => by simp [execFrom]
+    | n :: ns, i, k, s => by
+      simp only [execFrom]
+      cases hstep : step tbl n s with
+      | error e => simp
+      | ok s' =>
+        simp only
+        have := execFrom_shift tbl ns (i + 1) k s'
+        have e : i + k + 1 = i + 1 + k := by omega
+        rw [e]; exact this
+
+/-! ## The origin theorems -/
+
+/-- **Origin = node configuration.** The value is the configured one, whatever the context holds. -/
+theorem origin_config_true (tbl : ResolveTable) (hT : precedenceOK tbl = true) (n : Node) (om : OMap) (c : Ctx) (p : PSig)
+    (ho : originOf n om p = .config) : ∃ v, n.config.lookup p.name = some v ∧ resolve tbl n c p = .ok v := by
+  unfold originOf at ho
+  cases hcfg : n.config.lookup p.name with
+  | some v => exact ⟨v, rfl, (resolve_precedence tbl hT n c p).1 v hcfg⟩
+  | none =>
+    simp only [hcfg, Option.isSome_none, Bool.false_eq_true, if_false] at ho
+    split at ho
+    · cases ho
+    · split at ho <;> cases ho
+
+/-- **Origin = node j.** For a pipeline prefix of any length: if the inspection reports that parameter `p`
+    of the next node comes from node `j`, then `j` is an earlier node, and the value the node receives is
+    the value key `p` had in the context right after node `j` ran (which is what the first `j+1` nodes
+    leave when run on their own). -/
+theorem origin_node_true (tbl : ResolveTable) (hT : precedenceOK tbl = true) (pre : List Node) (n : Node)
+    (d₀ : Data) (c₀ : Ctx) (s : Data × Ctx) (hs : List Ctx)
+    (hwf : ∀ m ∈ pre, nodeWF m = true ∧ construct m = none)
+    (hrun : execHist tbl pre (d₀, c₀) = .ok (s, hs)) (p : PSig) (j : Nat)
+    (ho : originOf n (foldO pre 0 OState.init).om p = .node j) :
+    j < pre.length ∧
+    ∃ dj cj v, execFrom tbl (pre.take (j + 1)) 0 (d₀, c₀) = .ok (dj, cj) ∧ cj.get p.name = some v ∧
+      resolve tbl n s.2 p = .ok v := by
+  have hinv := oinv_execHist tbl c₀ pre [] OState.init (d₀, c₀) s hs hwf (oinv_init d₀ c₀) hrun
+  simp only [List.nil_append, List.length_nil] at hinv
+  unfold originOf at ho
+  cases hcfg : n.config.lookup p.name with
+  | some v => simp [hcfg] at ho
+  | none =>
+    simp only [hcfg, Option.isSome_none, Bool.false_eq_true, if_false] at ho
+    cases hom : (foldO pre 0 OState.init).om.lookup p.name with
+    | none => rw [hom] at ho; simp only at ho; split at ho <;> cases ho
+    | some j' =>
+      rw [hom] at ho
+      simp only at ho
+      injection ho with ho; subst ho
+      obtain ⟨cj, h1, h2, h3⟩ := hinv.fromNode p.name j' hom
+      have hlen := (execHist_fst tbl pre 0 (d₀, c₀) s hs hrun).2
+      have hlt : j' < pre.length := by
+        rcases Nat.lt_or_ge j' hs.length with hlt | hge
+        · omega
+        · rw [List.getElem?_eq_none hge] at h1; cases h1
+      obtain ⟨dj, hdj⟩ := execHist_prefix tbl pre (d₀, c₀) s hs j' cj hrun h1
+      rw [has_iff_get] at h3
+      cases hv : s.2.get p.name with
+      | none => rw [hv] at h3; cases h3
+      | some v =>
+        refine ⟨hlt, dj, cj, v, hdj, ?_, (resolve_precedence tbl hT n s.2 p).2.1 hcfg v hv⟩
+        rw [← h2, hv]
+
+/-- **Origin = initial context.** If the inspection reports that parameter `p` is expected from the caller
+    (and no earlier node deleted that key — otherwise the analysis rejects the pipeline), the node receives
+    exactly what the caller supplied under that name, and fails as unresolved when the caller supplied nothing. -/
+theorem origin_initial_true (tbl : ResolveTable) (hT : precedenceOK tbl = true) (pre : List Node) (n : Node)
+    (d₀ : Data) (c₀ : Ctx) (s : Data × Ctx) (hs : List Ctx)
+    (hwf : ∀ m ∈ pre, nodeWF m = true ∧ construct m = none)
+    (hrun : execHist tbl pre (d₀, c₀) = .ok (s, hs)) (p : PSig)
+    (ho : originOf n (foldO pre 0 OState.init).om p = .initial)
+    (hg : (foldO pre 0 OState.init).gone.contains p.name = false) :
+    resolve tbl n s.2 p = (match c₀.get p.name with | some v => .ok v | none => .error (.unresolved p.name)) := by
+  have hinv := oinv_execHist tbl c₀ pre [] OState.init (d₀, c₀) s hs hwf (oinv_init d₀ c₀) hrun
+  simp only [List.nil_append, List.length_nil] at hinv
+  unfold originOf at ho
+  cases hcfg : n.config.lookup p.name with
+  | some v => simp [hcfg] at ho
+  | none =>
+    simp only [hcfg, Option.isSome_none, Bool.false_eq_true, if_false] at ho
+    cases hom : (foldO pre 0 OState.init).om.lookup p.name with
+    | some j' => rw [hom] at ho; cases ho
+    | none =>
+      rw [hom] at ho
+      simp only at ho
+      cases hd : p.dflt with
+      | some dv => simp [hd] at ho
+      | none =>
+        have hget := hinv.untouched p.name hom hg
+        cases hc : c₀.get p.name with
+        | some v =>
+          simp only
+          exact (resolve_precedence tbl hT n s.2 p).2.1 hcfg v (by rw [hget, hc])
+        | none =>
+          simp only
+          exact (resolve_precedence tbl hT n s.2 p).2.2.2 hcfg (by rw [hget, hc]) hd
+
+/-- **Origin = default (partial).** A parameter reported as defaulted receives its default provided the
+    caller's context does not hold that name.  Without that proviso the statement is false:
+    see `origin_default_untrue_witness`. -/
+theorem origin_default_true_partial (tbl : ResolveTable) (hT : precedenceOK tbl = true) (pre : List Node) (n : Node)
+    (d₀ : Data) (c₀ : Ctx) (s : Data × Ctx) (hs : List Ctx)
+    (hwf : ∀ m ∈ pre, nodeWF m = true ∧ construct m = none)
+    (hrun : execHist tbl pre (d₀, c₀) = .ok (s, hs)) (p : PSig)
+    (ho : originOf n (foldO pre 0 OState.init).om p = .default)
+    (hc₀ : c₀.has p.name = false) :
+    ∃ dv, p.dflt = some dv ∧ resolve tbl n s.2 p = .ok dv := by
+  have hinv := oinv_execHist tbl c₀ pre [] OState.init (d₀, c₀) s hs hwf (oinv_init d₀ c₀) hrun
+  simp only [List.nil_append, List.length_nil] at hinv
+  unfold originOf at ho
+  cases hcfg : n.config.lookup p.name with
+  | some v => simp [hcfg] at ho
+  | none =>
+    simp only [hcfg, Option.isSome_none, Bool.false_eq_true, if_false] at ho
+    cases hom : (foldO pre 0 OState.init).om.lookup p.name with
+    | some j' => rw [hom] at ho; cases ho
+    | none =>
+      rw [hom] at ho
+      simp only at ho
+      cases hd : p.dflt with
+      | none => simp [hd] at ho
+      | some dv =>
+        have hnone : s.2.get p.name = none := by
+          cases hg : (foldO pre 0 OState.init).gone.contains p.name with
+          | false =>
+            rw [hinv.untouched p.name hom hg]
+            rw [has_iff_get] at hc₀
+            cases hc : c₀.get p.name with
+            | none => rfl
+            | some v => rw [hc] at hc₀; cases hc₀
+          | true =>
+            have := hinv.absent p.name hom hg
+            rw [has_iff_get] at this
+            cases hc : s.2.get p.name with
+            | none => rfl
+            | some v => rw [hc] at this; cases this
+        exact ⟨dv, rfl, (resolve_precedence tbl hT n s.2 p).2.2.1 hcfg hnone dv hd⟩
+
+/-! ## Acceptance by the flow analysis supplies the side condition of `origin_initial_true` -/
+
+/-- The flow analysis and the origin analysis walk the pipeline with the same bookkeeping. -/
+structure SimAO (ast : AState) (ost : OState) : Prop where
+  gone : ast.gone = ost.gone
+  known : ∀ k, ast.known.contains k = (ost.om.lookup k).isSome
+
+theorem simAO_init (dtype : String) : SimAO (initState dtype) OState.init :=
+  ⟨rfl, by intro k; simp [initState, OState.init]⟩
+
+theorem simAO_step (n : Node) (i : Nat) (ast ast' : AState) (ost : OState) (need : List String)
+    (h : stepA n ast = .ok (need, ast')) (hsim : SimAO ast ost) :
+    SimAO ast' (stepO n i ost) ∧ ∀ k ∈ neededKeys n ast, ast.gone.contains k = false := by
+  unfold stepA at h
+  split at h
+  · cases h
+  · split at h
+    · cases h
+    · simp only at h
+      split at h
+      · cases h
+      · rename_i hfind
+        injection h with h; injection h with _ h2; subst h2
+        refine ⟨⟨?_, ?_⟩, ?_⟩
+        · simp only [stepO, hsim.gone]
+        · intro k
+          rw [stepO_lookup]
+          have hk := hsim.known k
+          rw [Bool.eq_iff_iff]
+          simp only [List.mem_filter, List.mem_append, Bool.not_eq_true',
+            List.contains_eq_mem, decide_eq_false_iff_not, decide_eq_true_eq] at hk ⊢
+          by_cases hsu : k ∈ suppressedOf n
+          · simp [hsu]
+          · by_cases hcr : k ∈ createdOf n
+            · simp [hsu, hcr]
+            · simp only [hsu, hcr, or_false, not_false_eq_true, and_true, if_false]
+              rw [← hk]; simp
+        · intro k hk
+          have := List.find?_eq_none.mp hfind k hk
+          simpa using this
+
+/-- After any accepted prefix the two analyses are in corresponding states, and the next node passed the
+    deleted-key check. -/
+theorem simAO_prefix : ∀ (pre : List Node) (n : Node) (post : List Node) (i : Nat) (ast : AState) (ost : OState) (req : List String),
+    analyseFrom (pre ++ n :: post) i ast = .ok req → SimAO ast ost →
+    ∃ ast₁, SimAO ast₁ (foldO pre i ost) ∧ ∀ k ∈ neededKeys n ast₁, ast₁.gone.contains k = false
+  | [], n, post, i, ast, ost, req, h, hsim => by
+    simp only [List.nil_append, analyseFrom] at h
+    split at h
+    · cases h
+    · rename_i need ast' hstep
+      exact ⟨ast, by simpa [foldO] using hsim, (simAO_step n i ast ast' ost need hstep hsim).2⟩
+  | m :: pre, n, post, i, ast, ost, req, h, hsim => by
+    simp only [List.cons_append, analyseFrom] at h
+    split at h
+    · cases h
+    · rename_i need ast' hstep
+      split at h
+      · cases h
+      · rename_i rest hrest
+        have h1 := (simAO_step m i ast ast' ost need hstep hsim).1
+        simpa [foldO] using simAO_prefix pre n post (i + 1) ast' (stepO m i ost) rest hrest h1
+
+/-- **Origin = initial context, for accepted pipelines.** In a pipeline the flow analysis accepts, a processor
+    parameter reported as expected from the caller receives exactly what the caller supplied under that name. -/
+theorem origin_initial_true_of_accepted (tbl : ResolveTable) (hT : precedenceOK tbl = true)
+    (pre : List Node) (n : Node) (post : List Node) (d₀ : Data) (c₀ : Ctx) (s : Data × Ctx) (hs : List Ctx) (req : List String)
+    (hacc : analyse (pre ++ n :: post) d₀.ty = .ok req)
+    (hwf : ∀ m ∈ pre, nodeWF m = true ∧ construct m = none)
+    (hrun : execHist tbl pre (d₀, c₀) = .ok (s, hs)) (p : PSig) (hp : p ∈ n.params)
+    (ho : originOf n (foldO pre 0 OState.init).om p = .initial) :
+    resolve tbl n s.2 p = (match c₀.get p.name with | some v => .ok v | none => .error (.unresolved p.name)) := by
+  obtain ⟨ast₁, hsim, hneed⟩ := simAO_prefix pre n post 0 (initState d₀.ty) OState.init req hacc (simAO_init _)
+  refine origin_initial_true tbl hT pre n d₀ c₀ s hs hwf hrun p ho ?_
+  rw [← hsim.gone]
+  apply hneed
+  -- p is one of the needed keys: not configured, not produced by an earlier node, no default
+  unfold originOf at ho
+  cases hcfg : n.config.lookup p.name with
+  | some v => simp [hcfg] at ho
+  | none =>
+    simp only [hcfg, Option.isSome_none, Bool.false_eq_true, if_false] at ho
+    cases hom : (foldO pre 0 OState.init).om.lookup p.name with
+    | some j' => rw [hom] at ho; cases ho
+    | none =>
+      rw [hom] at ho
+      simp only at ho
+      cases hd : p.dflt with
+      | some dv => simp [hd] at ho
+      | none =>
+        have hk : ast₁.known.contains p.name = false := by rw [hsim.known, hom]; rfl
+        simp only [neededKeys, List.mem_append, List.mem_map, List.mem_filter]
+        have hk' : ¬ p.name ∈ ast₁.known := by simpa using hk
+        exact Or.inl ⟨p, ⟨hp, by simp [hcfg, hk', hd]⟩, rfl⟩
+
+/-! ## Where the report is untrue: the recorded finding, as a theorem about the model -/
+
+/-- The documented precedence table. -/
+def docTable : ResolveTable :=
+  [((true, true, true), .config), ((true, true, false), .config), ((true, false, true), .config), ((true, false, false), .config),
+   ((false, true, true), .context), ((false, true, false), .context), ((false, false, true), .default), ((false, false, false), .none_)]
+
+/-- `[TSourceDef (v defaults to "d0"), delete:v]` with the initial context holding exactly the required key `v`:
+    the analysis accepts and requires exactly `v`; the inspection reports node 0's `v` as defaulted; at run time
+    node 0 receives the caller's value.  (Replayed on the real code by `props/c02.py`; recorded as a known finding.) -/
+theorem origin_default_untrue_witness :
+    precedenceOK docTable = true
+    ∧ (analyse [srcDef, del "v"] "NoDataType").toOption = some ["v", "v"]
+    ∧ originOf srcDef (foldO [] 0 OState.init).om ⟨"v", some (Val.str "d0")⟩ = .default
+    ∧ resolve docTable srcDef [("v", Val.str "from-caller")] ⟨"v", some (Val.str "d0")⟩ = .ok (Val.str "from-caller")
+    ∧ (exec docTable [srcDef, del "v"] (Data.nodata, [("v", Val.str "from-caller")])).toOption.isSome = true := by
+  refine ⟨by decide, by decide, by decide, by rfl, by decide⟩
+
+/-! ## Non-vacuity -/
+
+def op4 : Node :=
+  { op1 with params := [⟨"a", none⟩, ⟨"z", none⟩, ⟨"q", some Val.null⟩, ⟨"w", none⟩], config := [("w", Val.str "cfg")] }
+
+/-- A pipeline in which all four origins occur and the hypotheses of the theorems hold. -/
+example :
+    origins [srcDef, probeTo "a", op4]
+      = [[("v", .default)], [], [("a", .node 1), ("z", .initial), ("q", .default), ("w", .config)]]
+    ∧ (∀ m ∈ [srcDef, probeTo "a"], nodeWF m = true ∧ construct m = none)
+    ∧ (execHist docTable [srcDef, probeTo "a"] (Data.nodata, [])).toOption.isSome = true := by
+  refine ⟨by decide, by decide, by decide⟩
 
 end SemantivaModel.Inspect
